@@ -42,8 +42,12 @@ func main() {
 		genFor(*prop, *tier, *seed)
 	case "osproc":
 		runOSProc(*nArg, *langArg, *seed)
+	case "conc":
+		runConcFile(*arg, *seed)
 	case "prog":
 		runProgramFile(*arg, *seed)
+	case "replayconc":
+		replayConcFile(*arg)
 	case "replay":
 		replayFile(*arg)
 	default:
